@@ -4,7 +4,7 @@
     plume.cc:148-172, plume_models/temperature/gaussian.cc:99, */composition/uniform.cc, */grains/uniform.cc,
     */grains/random_uniform_distribution*.cc, oceanic_plate_models/temperature/{half_space_model,plate_model}.cc,
     subducting_plate_models/temperature/mass_conserving.cc:237, subducting_plate.cc:218,257 and fault.cc:198,236. *)
-From Coq Require Import List Arith Bool.
+From Coq Require Import List Arith Bool NArith.
 Import ListNotations.
 
 Inductive lsig :=
@@ -16,7 +16,8 @@ Inductive lsig :=
 | SigGrainsDeflected (ncomp nsizes nnorm ndefl nbasis : nat)
 | SigSpreading (ridges : list nat) (nvel : nat)                       (* points per ridge; velocities listed *)
 | SigSubducting (ridges : list nat) (rows : list nat)                 (* points per ridge; entries per row of the subducting velocity table *)
-| SigSection (ncoords coordinate nseg_default nseg_section : nat).
+| SigSection (ncoords coordinate nseg_default nseg_section : nat)
+| SigVersion (file program : list N).                                 (* bytes of the "version" entry and of MAJOR.MINOR of the library *)
 
 Definition sum_list (l : list nat) : nat := fold_right Nat.add 0 l.
 
@@ -24,6 +25,13 @@ Fixpoint nat_list_eqb (a b : list nat) : bool :=
   match a, b with
   | [], [] => true
   | x :: a', y :: b' => (x =? y) && nat_list_eqb a' b'
+  | _, _ => false
+  end.
+
+Fixpoint bytes_eqb (a b : list N) : bool :=
+  match a, b with
+  | [], [] => true
+  | x :: a', y :: b' => N.eqb x y && bytes_eqb a' b'
   | _, _ => false
   end.
 
@@ -40,6 +48,7 @@ Definition sig_ok (s : lsig) : bool :=
       (* mass_conserving.cc:270-276: a table whose first row has more than one entry must have the shape of the ridge coordinates *)
       if 1 <? hd 0 rows then match ridges with [] => true | _ => nat_list_eqb rows ridges end else true
   | SigSection ncoords coordinate nd ns => (coordinate <? ncoords) && (ns =? nd)
+  | SigVersion file program => bytes_eqb file program       (* world.cc:171: the strings are compared as a whole *)
   end.
 
 Definition doc_ok (d : list lsig) : bool := forallb sig_ok d.
